@@ -174,7 +174,7 @@ func genC09(t *testing.T) {
 				}
 			}
 		}
-		c := &caseT{Stage: st.stage, Mode: st.mode, Par: par, Cap: wide(r, 5, 16, 64), Inputs: [][]int{in}, Fail: fail, FSeed: r.Uint64() % 100000, Delay: []int{0, 10, 900, 900}[r.IntN(4)]}
+		c := &caseT{Partial: st.stage == "fork.FMap" && r.IntN(3) == 0, Stage: st.stage, Mode: st.mode, Par: par, Cap: wide(r, 5, 16, 64), Inputs: [][]int{in}, Fail: fail, FSeed: r.Uint64() % 100000, Delay: []int{0, 10, 900, 900}[r.IntN(4)]}
 		prod := rep("S0", r.IntN(ln+1))
 		if r.IntN(3) > 0 {
 			prod = append(rep("S0", ln), "C0")
